@@ -20,6 +20,8 @@ mod c08;
 mod c09;
 mod c10;
 mod c12;
+mod c13;
+mod c13_child;
 mod c14;
 mod c14_full;
 mod c15;
@@ -41,6 +43,7 @@ fn main() {
         "C04" => c04::run(&args),
         "C05" => c05::run(&args),
         "C09" => c09::run(&args),
+        "C13" => c13::run(&args),
         "C15" => c15::run(&args),
         "C06" => c06::run(&args),
         "C14" => c14::run(&args),
